@@ -36,7 +36,7 @@ func init() {
 	register(&c09{base{
 		id:          "C09",
 		level:       lvlExploration,
-		rule:        "values mode: a 65536-word buffer holding every 16-bit word once is multiplied (and multiply-accumulated onto random output) by a block of constants on one dispatch path and compared word for word with reference rows; lengths mode: every even length 0..320 plus lengths around 2^16 and 2^17 bytes with source and destination flush against a trailing PROT_NONE guard page and again right after a leading one (a stray access faults and is attributed through the worker journal/note); align mode: source x destination alignments 0..63 in canary-filled memory, canaries and input re-checked after each call. A key is (path, op, mode-specific coordinate); trivial = length 0. Placement spare-capacity: ordinary sub-slices whose capacity reaches far beyond their length (different for input and output), canaries all around. Per length a call with an output one word shorter than the input (spare capacity behind it): nothing outside the given buffer may change.. Path generic-go-words (the portable kernels on field elements). The exported entry points (values, lengths, alignment, concurrency) also run in a GOARCH=386 build of the worker, where they reach the portable non-amd64 kernels.",
+		rule:        "values mode: a 65536-word buffer holding every 16-bit word once is multiplied (and multiply-accumulated onto random output) by a block of constants on one dispatch path and compared word for word with reference rows; lengths mode: every even length 0..320 plus lengths around 2^16 and 2^17 bytes with source and destination flush against a trailing PROT_NONE guard page and again right after a leading one (a stray access faults and is attributed through the worker journal/note); align mode: source x destination alignments 0..63 in canary-filled memory, canaries and input re-checked after each call. A key is (path, op, mode-specific coordinate); trivial = length 0. Placement spare-capacity: ordinary sub-slices whose capacity reaches far beyond their length (different for input and output), canaries all around. Per length a call with an output one word shorter than the input (spare capacity behind it): nothing outside the given buffer may change.. Path generic-go-words (the portable kernels on field elements). The exported entry points (values, lengths, alignment, concurrency) also run in a GOARCH=386 build of the worker, where they reach the portable non-amd64 kernels. 386 worker: buffers of 2 MiB and 5 MiB.",
 		assumptions: append([]string{"the SSSE3 path needs an SSSE3 CPU (present here); non-amd64 dispatch cannot be executed on this machine, its Go kernels are driven directly", "guard pages catch accesses that leave the mapped span by less than a page at the guarded end; canaries catch writes (not reads) elsewhere"}, commonAssumptions...),
 		opts:        core.WorkerOpts{CrashIsViolation: true, WallSeconds: 1800},
 	}})
